@@ -225,6 +225,22 @@ func (g *G) expr(d int, want string) *ast.Expr {
 			}
 		case 6:
 			return ast.Fn("two", g.expr(d-1, "num"), g.expr(d-1, ""))
+		case 7:
+			if d >= 2 {
+				// grouping matters for doubles: a + (b + c) is not (a + b) + c for these
+				v := func() *ast.Expr {
+					return ast.Num(r.Pick("0.1", "0.2", "0.3", "0.7", "10000000000000000", "1", "9007199254740992", "0.0000001", "1.1", "3"))
+				}
+				op := r.Pick("add", "add", "mul", "sub")
+				a, b, c := v(), v(), v()
+				if r.Intn(3) == 0 {
+					a = ast.Var(r.Pick("n", "m"))
+				}
+				if r.Intn(2) == 0 {
+					return ast.Bin(op, a, ast.Bin(op, b, c))
+				}
+				return ast.Bin(op, ast.Bin(op, a, b), c)
+			}
 		}
 		op := r.Pick("mul", "div", "mod", "add", "sub", "add", "sub", "mul")
 		return ast.Bin(op, g.expr(d-1, "num"), g.expr(d-1, "num"))
@@ -263,6 +279,14 @@ func (g *G) text() string {
 	g.lineID++
 	t := fmt.Sprintf("l%d", g.lineID)
 	r := g.R
+	if g.lineID > 1 && r.Intn(6) == 0 {
+		// the same words as an earlier line (other tags, another place in the script): lines are not identified by their text
+		t = fmt.Sprintf("l%d", 1+r.Intn(g.lineID-1))
+	}
+	if r.Intn(14) == 0 {
+		// a text that ends with its first colon: the implicit character attribute covers all of it
+		t = r.Pick("Alice:", "Ask Bob:", "l:")
+	}
 	if g.P.Multibyte && r.Intn(3) == 0 {
 		t += r.Pick(" é", " 名前", " 😀", "ü")
 	}
@@ -543,6 +567,30 @@ func RunCase(r *prng.R, p *Profile, id string) *sexp.S {
 			prog.Nodes = append(prog.Nodes, n)
 			continue
 		}
+		// statements that present nothing before the node's first line (the node is then not Productive, see Props/C01Ranked):
+		// a loop that re-enters the node until its own visit counter says enough (tracked nodes only: it terminates because
+		// every round counts), or a conditional jump to a LATER node (no cycle without something presented in between)
+		dupTitles := false
+		for a := range g.titles {
+			for b := range g.titles {
+				dupTitles = dupTitles || (a != b && g.titles[a] == g.titles[b])
+			}
+		}
+		plainTracking := n.Tracking != "never"
+		for _, h := range n.Pre {
+			plainTracking = plainTracking && h[0] != "tracking"
+		}
+		if p.LongRuns && !dupTitles && r.Intn(8) == 0 {
+			if plainTracking && r.Intn(2) == 0 {
+				k := strconv.Itoa(1 + r.Intn(3))
+				n.Body = append(n.Body, &ast.Stmt{Kind: "if", Clauses: []ast.Clause{{Cond: ast.Bin("lt", ast.Fn("visited_count", ast.Str(t)), ast.Num(k)),
+					Body: []*ast.Stmt{{Kind: "jump", JumpID: r.Intn(2) == 0, E: ast.Str(t)}}}}})
+			} else if i+1 < len(g.titles) {
+				n.Body = append(n.Body, &ast.Stmt{Kind: "set", Var: "n", Op: "set", E: ast.Num(strconv.Itoa(r.Intn(5)))})
+				n.Body = append(n.Body, &ast.Stmt{Kind: "if", Clauses: []ast.Clause{{Cond: ast.Bin("lt", ast.Var("n"), ast.Num("2")),
+					Body: []*ast.Stmt{{Kind: "jump", JumpID: r.Intn(2) == 0, E: ast.Str(g.titles[i+1+r.Intn(len(g.titles)-i-1)])}}}}})
+			}
+		}
 		n.Body = append(n.Body, &ast.Stmt{Kind: "line", Line: &ast.Line{Els: []ast.El{{Text: "enter " + t}}}})
 		if p.LongRuns {
 			n.Body = append(n.Body, g.body(0, 3+r.Intn(8))...)
@@ -563,7 +611,7 @@ func RunCase(r *prng.R, p *Profile, id string) *sexp.S {
 			for k, m := 0, 110+r.Intn(90); k < m; k++ {
 				chain = append(chain, &ast.Stmt{Kind: "cmd", Cmd: []ast.CmdEl{{Word: "cmd"}, {Word: strconv.Itoa(k)}}})
 			}
-			n.Body = append(n.Body[:1], append(chain, n.Body[1:]...)...)
+			n.Body = append(append([]*ast.Stmt{}, chain...), n.Body...)
 		}
 		prog.Nodes = append(prog.Nodes, n)
 	}
@@ -680,7 +728,7 @@ func RunCase(r *prng.R, p *Profile, id string) *sexp.S {
 			ops.Add(sexp.L(sexp.A("resnap"), sexp.N(k)))
 		}
 	}
-	c := sexp.L(sexp.A("case"), sexp.A("run"), sexp.A(id), srcs, prog.Sexp(), sexp.L(sexp.A("seed"), sexp.Str(r.Pick("seed", "abc", "0", "z9", "verif1"))), vars, ops)
+	c := sexp.L(sexp.A("case"), sexp.A("run"), sexp.A(id), srcs, prog.Sexp(), sexp.L(sexp.A("seed"), sexp.Str(r.Pick("seed", "abc", "0", "z9", "verif1", "savegame00042", "zzzzzzzzzzzzzz", "chapter1scene2take3000", "1y2p0ij32e8e8"))), vars, ops)
 	if g.hostWait {
 		// the host has handlers of its own under the names of the two built-ins: "wait" is replaced by it, "stop" never reaches it
 		c.Add(sexp.L(sexp.A("cmds"), sexp.Str("wait"), sexp.Str("stop")))
